@@ -989,8 +989,14 @@ func invAvalanche(h uint64) uint64 {
 	return h
 }
 
+// shard count of the (unbounded) caches keyTrial builds; an unbounded cache keeps an explicit count above 256
+var keyTrialShards = 4
+
 func keyTrial[K comparable](m *meta, label string, mk func(i int) (K, K), n int, pol kioshun.EvictionPolicy) {
-	c, err := kioshun.New[K, int](kioshun.Config{MaxSize: 0, ShardCount: 4, EvictionPolicy: pol})
+	if keyTrialShards != 4 {
+		label = fmt.Sprintf("%s (%d shards)", label, keyTrialShards)
+	}
+	c, err := kioshun.New[K, int](kioshun.Config{MaxSize: 0, ShardCount: keyTrialShards, EvictionPolicy: pol})
 	must(err)
 	defer c.Close()
 	// write through one representation, read / delete through an equal one
@@ -1061,6 +1067,7 @@ func streamKeys(o opts) {
 	x, y := new(int), new(int)
 	for round := 0; round < o.n; round++ {
 		pol := pols[round%len(pols)]
+		keyTrialShards = []int{4, 512, 1, 1024}[(round+round/4)%4]
 		n := 40 + r.Intn(60)
 		seedv := r.Int63()
 		keyTrial(m, "string", func(i int) (string, string) {
